@@ -2347,6 +2347,28 @@ impl<'r> Gen<'r> {
                 4 | 5 => self.type_section(),
                 _ => {
                     if allow_impl {
+                        if self.rng.chance(1, 8) {
+                            // forward (or external) declaration between the implementations
+                            self.feat("forward-decl-in-implementation");
+                            let first = self.p.toks.len();
+                            let is_func = self.rng.bool();
+                            self.kw(if is_func { "function" } else { "procedure" });
+                            self.new_name("Later");
+                            self.param_list();
+                            if is_func {
+                                self.op(":");
+                                self.type_ident(false);
+                            }
+                            self.semi();
+                            if self.rng.chance(3, 4) {
+                                self.kw("forward");
+                            } else {
+                                self.kw("external");
+                                self.push("'lib.dll'", GK::Str);
+                            }
+                            self.semi();
+                            self.mark_line_start(first);
+                        }
                         let q = self.rng.bool();
                         self.routine_impl(q);
                     } else {
